@@ -5,7 +5,7 @@
  * referenced once, appended once to the delivery queue and removed once from the stash. */
 #ifdef V_UNSTASH_LOOPCONTRACT
 #define M_VERIF_LOOPSPEC_unstash \
-    __CPROVER_assigns(m_idx, m_itr, g, g_qit->q, g_qit->idx, g_qit->removed, g_stashq->len, g_stashq->first, g_stashq->last, unstashed->len, unstashed->first, unstashed->last, \
+    __CPROVER_assigns(m_idx, m_itr, g.enq_calls, g.enq_arg, g.enq_q, g.ref_calls, g.ref_arg, g.itr_rm_calls, g.itr_get_calls, g.itr_nonhead, g.itr_elem, g_qit->q, g_qit->idx, g_qit->removed, g_stashq->len, g_stashq->first, g_stashq->last, unstashed->len, unstashed->first, unstashed->last, \
                       g_free_calls, g_free_arg, g_free_arg0) \
     __CPROVER_loop_invariant(m_idx <= g_S0 && g_stashq->len == g_S0 - m_idx && unstashed->len == m_idx && unstashed == g.qnew_ret) \
     __CPROVER_loop_invariant(g.enq_calls == g_enq0 + m_idx && g.ref_calls == g_ref0 + m_idx && g.itr_rm_calls == g_rm0 + m_idx && g.itr_get_calls == g_get0 + m_idx) \
